@@ -189,6 +189,8 @@ const NStates = int(nStates)
 // Class is the byte class of a rune for coverage accounting and keys.
 func Class(r rune) string {
 	switch {
+	case r < 0:
+		return "timeout"
 	case r == 0x18 || r == 0x1a:
 		return "CAN/SUB"
 	case r == 0x1b:
@@ -369,8 +371,21 @@ func hiAlts(m M, r rune) []Alt {
 	return []Alt{{g, nil}, {g, []Tok{{K: 'T', R: r}}}}
 }
 
+// TimeoutRune is a pseudo rune standing for "the Escape timeout elapsed here":
+// in the escape state it delivers the Escape key and returns to ground,
+// elsewhere it does nothing.
+const TimeoutRune rune = -2
+
 // Step consumes one rune.
 func (m M) Step(r rune) []Alt {
+	if r == TimeoutRune {
+		if m.S == Escape {
+			m.S = Ground
+			m.afterString, m.stOpen = false, false
+			return one(m, Tok{K: 'C', R: 0x1b})
+		}
+		return one(m)
+	}
 	// anywhere
 	switch {
 	case r == 0x18 || r == 0x1a:
